@@ -170,6 +170,7 @@ class CrawlRun(object):
         self.task_item = {}
         self.max_requests = 400
         self.split_answers = False
+        self.wire = {}          # URL text -> the response octets the server sent (for checks that read archives)
 
     # ---- logging and crash points
     def log(self, **kw):
@@ -232,6 +233,8 @@ class CrawlRun(object):
         cls, data = self.site.respond(host, port, path, hit)
         self.answer_log.append(n)
         self.log(e='resp', n=n, u=u, cls=cls, h=self.hidx(host, port))
+        if data is not None:
+            self.wire['http://%s%s%s' % (host, '' if port == 80 else ':%d' % port, path)] = data
         if data is None:
             ep.close()
         else:
